@@ -251,3 +251,62 @@ def jobserver_child_interrupted(ninja):
                 except OSError: pass
             shutil.rmtree(d, ignore_errors=True)
     return bad
+
+def jobserver_limits(ninja):
+    """a jobserver pool with ONE token: whatever else MAKEFLAGS carries (flag letters of make in the first word, further options
+    after the jobserver one), ninja runs at most 2 commands at a time (implicit slot + the token) and gives the token back"""
+    bad = []
+    for flags in (' -j5 --jobserver-auth=fifo:%s', 'k -j5 --jobserver-auth=fifo:%s', 'kw -j5 --jobserver-auth=fifo:%s --no-print-directory',
+                  ' --no-print-directory -j5 --jobserver-auth=fifo:%s -- VAR=nnn'):
+        d = mk('c06m')
+        try:
+            L = ['rule r', '  command = echo S $out >> marks; sleep 0.05; echo E $out >> marks; touch $out']
+            L += ['build o%d: r' % k for k in range(7)] + ['build all: phony ' + ' '.join('o%d' % k for k in range(7)), 'default all']
+            open(d + '/build.ninja', 'w').write('\n'.join(L) + '\n')
+            fifo = d + '/tokens.fifo'; os.mkfifo(fifo)
+            fd = os.open(fifo, os.O_RDWR | os.O_NONBLOCK); os.write(fd, b'+')
+            env = dict(os.environ, MAKEFLAGS=flags % fifo)
+            p = subprocess.run([ninja, '-C', d], stdout=subprocess.PIPE, stderr=subprocess.STDOUT, env=env, timeout=60)
+            try: left = len(os.read(fd, 100))
+            except BlockingIOError: left = 0
+            os.close(fd)
+            running = set(); mx = 0
+            for l in (open(d + '/marks').read().split('\n') if os.path.exists(d + '/marks') else []):
+                w = l.split()
+                if len(w) != 2: continue
+                if w[0] == 'S': running.add(w[1]); mx = max(mx, len(running))
+                else: running.discard(w[1])
+            txt = p.stdout.decode(errors='replace')
+            if p.returncode != 0: bad.append(('jobserver-limit', 'MAKEFLAGS=%r: exit %d: %s' % (flags % 'F', p.returncode, txt[-150:])))
+            if mx > 2: bad.append(('jobserver-limit', 'MAKEFLAGS=%r with a one-token pool: %d commands ran at the same time (at most 2 allowed)' % (flags % 'F', mx)))
+            if left != 1: bad.append(('jobserver-limit', 'MAKEFLAGS=%r: the pool holds %d tokens after the run, 1 before' % (flags % 'F', left)))
+        finally: shutil.rmtree(d, ignore_errors=True)
+    return bad
+
+def recompaction_keeps_live_entries(ninja):
+    """C02 on the real binary across an automatic .ninja_log recompaction (more than 100 records, more than 3x the outputs): the
+    entries of outputs that exist only through a dyndep file (implicit outputs a dyndep file declares) are live; the run that
+    recompacts and every later run find nothing to do"""
+    bad = []
+    d = mk('c02r')
+    try:
+        open(d + '/build.ninja', 'w').write(
+            "rule mkdd\n  command = printf 'ninja_dyndep_version = 1\\nbuild out | out.extra: dyndep\\n' > $out\nbuild dd: mkdd\n"
+            'rule r\n  command = touch out out.extra\nbuild out: r in || dd\n  dyndep = dd\nrule c\n  command = cat $in > $out\nbuild final: c out\ndefault final\n')
+        open(d + '/in', 'w').write('x')
+        def run(*a): return subprocess.run([ninja, '-C', d] + list(a), stdout=subprocess.PIPE, stderr=subprocess.STDOUT, timeout=60)
+        p = run()
+        if p.returncode != 0: return [('recompact-setup', 'initial build failed: ' + p.stdout.decode(errors='replace')[-200:])]
+        nrec = lambda: sum(1 for l in open(d + '/.ninja_log') if not l.startswith('#'))
+        for i in range(60):
+            if nrec() > 100: break
+            os.unlink(d + '/out'); run()
+        before = nrec()
+        p1 = run(); after = nrec()                # this run loads the long log: recompaction
+        p2 = run('-d', 'explain')
+        if after >= before: bad.append(('recompact-setup', 'the log was not recompacted (%d -> %d records)' % (before, after)))
+        for name, p in (('the run that recompacted the log', p1), ('the run after the recompaction', p2)):
+            if b'no work to do' not in p.stdout:
+                bad.append(('recompaction-loses-live-entry', '%s (log %d -> %d records) is not a no-op after a successful build: %s' % (name, before, after, p.stdout.decode(errors='replace').strip()[-250:])))
+    finally: shutil.rmtree(d, ignore_errors=True)
+    return bad
